@@ -14,3 +14,9 @@ OBLIGATIONS = [
 ]
 OBLIGATIONS += reuse("C02", r"lzma2_dict_size_byte|lzma1_props_bytes")   # declared dictionary >= used dictionary
 OBLIGATIONS += reuse("C15", r"_roundtrip$")                                # BCJ / delta chains are lossless
+OBLIGATIONS += [
+    Obligation(name="mf_find_extension", src="mffind.c", func="harness_mf_find", qdefs=["WIN=14"], tdefs=["WIN=24"], qunwind=20, tunwind=42, units=[], flags=FL, timeout_q=280,
+        functions=["lzma_mf_find", "lzma_memcmplen"], stubs=["mf->find (the match finder proper): returns 0 or 1 candidate satisfying its contract (genuine match, len <= nice_len and <= available bytes, distance inside the window)"],
+        desc="lzma_mf_find for an arbitrary window, position, nice_len/match_len_max and candidate: the returned (possibly extended) match is at least as long as the candidate, every byte of it really matches, it never reaches past the end of the buffered input nor past match_len_max",
+        bounds_q="window 14 bytes, nice_len 2..4, match_len_max < 12"),
+]
